@@ -25,7 +25,6 @@ ALIVE = [(r'\bop->', 'VF_ALIVE(op)->'), (r'\bself->op_\b', 'VF_RCV_ALIVE(self)->
 
 op_ctx = dict(
     cls='seq_op', members=['status_'], methods=[], enums={'status': 'ST'},
-    pre=[(r'VF_THE_OP', 'this')],   # (no-op placeholder so that the list is never empty)
     post=[(r'\bVF_THE_OP\b', 'self'), (r'\bself->', 'VF_ALIVE(self)->')],
 )
 # constructor: an exception from connect() leaves the constructor (documented: it propagates out of connect()); `return` = unwinding
@@ -76,7 +75,7 @@ SPEC = dict(
     },
     closed_world=[
         dict(file=H, members=['status_', 'predOp_', 'succOp_'],
-             allow=[r'(?s),\s*status_\(status::predecessor_operation_constructed\)\s*\{',      # the mem-initialiser (extracted: status_init)
+             allow=[r'(?s),\s*status_\(status::\w+\)\s*\{',      # the mem-initialiser (extracted: status_init)
                     r'status status_;',
                     r'(?s)manual_lifetime<connect_result_t<\s*Predecessor,\s*predecessor_receiver<Predecessor, Successor, Receiver>>>\s*predOp_;',
                     r'(?s)manual_lifetime<connect_result_t<\s*Successor,\s*successor_receiver<Predecessor, Successor, Receiver>>>\s*succOp_;']),
